@@ -34,6 +34,14 @@ def _orso():
 _COL_CACHE = {}
 
 
+def _fresh(s):
+    """An equal string that is an object of its own: names, aliases, identities and lookup keys all reach the
+    implementation through here, so that comparing strings by `is` instead of `==` cannot pass -- from two characters on.
+    (CPython shares the empty string and the one-character Latin-1 strings, and a one-character *literal* may or may not
+    be that shared object; decoding always gives the shared one, so a case behaves the same whenever it is run.)"""
+    return s.encode("utf-8", "surrogatepass").decode("utf-8", "surrogatepass") if isinstance(s, str) else s
+
+
 def build_columns(case):
     """One Python object per table entry (cached per (index, definition) while unmodified)."""
     o = _orso()
@@ -48,9 +56,9 @@ def build_columns(case):
             if c is not None:
                 objs.append(c)
                 continue
-        kw = {"name": name, "aliases": None if aliases is None else list(aliases)}
+        kw = {"name": _fresh(name), "aliases": None if aliases is None else [_fresh(a) for a in aliases]}
         if ident is not None:
-            kw["identity"] = ident
+            kw["identity"] = _fresh(ident)
         if kind == "const":
             kw["value"] = 1
         c = o[kind](**kw)
@@ -120,7 +128,7 @@ def execute(case):
     meta = [(s[0], list(s[1])) for s in case["schemas"]]
     state = [list(s[2]) for s in case["schemas"]]
     outs = []
-    res = {"outs": outs, "final": None, "clause": None, "at": None, "idents": idents, "num_columns": None}
+    res = {"outs": outs, "final": None, "clause": None, "at": None, "idents": idents, "num_columns": None, "hits": []}
 
     def tags(schema):
         return [tag_of.get(id(c), -1) for c in schema.columns]
@@ -197,11 +205,11 @@ def execute(case):
             target = r
             try:
                 if kind == "find":
-                    got = sch.find_column(op[2], op[3]) if op[3] else sch.find_column(op[2])
+                    got = sch.find_column(_fresh(op[2]), op[3]) if op[3] else sch.find_column(_fresh(op[2]))
                 elif kind == "col":
-                    got = sch.column(op[2])
+                    got = sch.column(_fresh(op[2]))
                 elif kind == "pop":
-                    got = sch.pop_column(op[2])
+                    got = sch.pop_column(_fresh(op[2]))
                 elif kind == "allnames":
                     got = sch.all_column_names()
                 elif kind == "names":
@@ -221,6 +229,8 @@ def execute(case):
                 outs.append(["raised", type(e).__name__])
                 return fail(n, "%s raised %s" % (kind, type(e).__name__))
             Q = tags(sch)
+            if kind in ("find", "col", "pop") and isinstance(op[2], str):
+                _lookalike_hits(res["hits"], kind, op[2], P, names, alln)
             if kind in ("find", "col", "pop"):
                 if got is IndexError:
                     out = ["IndexError"]
@@ -303,6 +313,25 @@ def execute(case):
             return fail(len(case["prog"]), "a schema's name or aliases were modified")
     res["final"] = [list(s) for s in state]
     return res
+
+
+def _lookalike_hits(out, kind, key, P, names, alln):
+    """input distribution: names that look like something else (a position, a constant, a padded / non-ASCII number)
+    and whether, for a name that reads as a position, that position holds another column than the one bearing the name"""
+    if key in LOOKALIKE_SET:
+        out.append("%s:key-looks-like-something-else" % kind)
+    if key.isdecimal():
+        out.append("%s:key-is-a-decimal-string" % kind)
+        try:
+            pos = int(key)
+        except ValueError:
+            return
+        if pos < len(P):
+            bearer = next((t for t in P if key in alln[t]), None)
+            named = next((t for t in P if names[t] == key), None)
+            want = named if kind == "pop" else bearer
+            out.append("%s:decimal-key-below-width:%s" % (kind, "position-holds-the-%s" % ("named" if kind == "pop" else "bearer") if P[pos] == want
+                                                          else "absent-name" if want is None else "position-holds-another-column"))
 
 
 # ----------------------------------------------------------------------------- mirror (pure spec)
@@ -485,8 +514,13 @@ def _hits(ctx, c):
                 alln = [x for col in c["cols"] for x in ([col[1]] + list(col[2] or []))]
             for cl in _ci_class(op[2], alln):
                 ctx.hit("ci:" + cl)
+        if k in ("find", "col", "pop") and isinstance(op[2], str) and len(op[2]) > 1:
+            ctx.hit("key-is-a-string-object-of-its-own:" + k)
         if k == "col":
+            if type(op[2]) is int and not -2**63 <= op[2] < 2**63:
+                ctx.hit("col:index-beyond-the-machine-word")
             k = "col:" + ("name" if isinstance(op[2], str) else "bool" if isinstance(op[2], bool) else "index")
+
         elif k == "find":
             k = "find:" + ("ci" if op[3] else "exact")
         ctx.hit("op:" + k)
@@ -507,6 +541,8 @@ def evaluate(ctx, cases, stats=True):
         ctx.case(c, nontrivial, key=None if any(col[0] is None for col in c["cols"]) else line)
         if stats:
             _hits(ctx, c)
+            for h in r.get("hits") or ():
+                ctx.hit(h)
         if not mo.startswith("ok "):
             raise InfraError("model rejected case %r: %r" % (c, mo))
         m = wire.dec_all(mo[3:])
@@ -545,7 +581,26 @@ def evaluate(ctx, cases, stats=True):
                     last = dict(c, prog=cut["prog"][-1:])
                     if still(last):
                         c_min = last
-                c_min = shrink(c_min, still)
+                # drop every operation the failure does not need (the generic shrinker spends its budget on the column
+                # table first), then the schemas' columns, then delta-debug what is left
+                i = 0
+                while i < len(c_min["prog"]) and len(c_min["prog"]) > 1:
+                    t = dict(c_min, prog=c_min["prog"][:i] + c_min["prog"][i + 1:])
+                    if still(t):
+                        c_min = t
+                    else:
+                        i += 1
+                for q in range(len(c_min["schemas"])):
+                    i = 0
+                    while i < len(c_min["schemas"][q][2]):
+                        sc = [list(x) for x in c_min["schemas"]]
+                        sc[q][2] = sc[q][2][:i] + sc[q][2][i + 1:]
+                        t = dict(c_min, schemas=sc)
+                        if still(t):
+                            c_min = t
+                        else:
+                            i += 1
+                c_min = shrink(c_min, still, budget=600)
             r2 = execute(c_min)
             mo2 = None
             try:
@@ -588,6 +643,73 @@ KEYS = ["a", "A", "b", "B", "c"]
 ALIASES6 = [None, [], ["a"], ["A"], ["b"], ["b", "a"]]
 ALIASES3 = [None, ["a"], ["b"]]
 
+# Names that look like something else: a position ('0', '1', '2' ... as in a header-less CSV), a negative index, a
+# constant, a padded / signed / fractional / non-ASCII / superscript number, the empty string.  A name is a name:
+# `column('1')` is the first column bearing '1', wherever it sits.  Every generator for column / find_column /
+# pop_column draws from these too, in layouts where a name is *not* its own position.
+DIGITS3 = ["1", "0", "2"]
+DIGIT_KEYS = ["0", "1", "2", "3", "-1", " 1", "\uff11", "01"]
+DIGIT_ALIASES4 = [None, ["0"], ["2"], ["1", "0"]]
+DIGIT_ALIASES2 = [None, ["2"]]
+LOOKALIKE = ["0", "1", "2", "3", "-1", "-0", "True", "False", "None", " 1", "1 ", "\uff11", "\u0661", "\u00b2", "1.0", "01", "+1", "1_0",
+             "0x1", "1e0", "nan", ""]
+LOOKALIKE_SET = frozenset(LOOKALIKE)
+
+
+# what a `str` method mentioned in the source is likely to single out
+_METHOD_WITNESSES = {
+    "isdigit": ["0", "1", "\u00b2"], "isdecimal": ["0", "1", "\uff11"], "isnumeric": ["0", "1", "\u00bd"], "isalpha": ["a", "1"],
+    "isalnum": ["a1", "_"], "isupper": ["A", "a"], "islower": ["a", "A"], "isspace": [" ", ""], "istitle": ["Ab", "ab"],
+    "isidentifier": ["a", "_", "1a", "class"], "isascii": ["a", "\u00e9"], "isprintable": ["a", "\n"],
+    "strip": [" a", "a ", "a"], "lstrip": [" a", "a"], "rstrip": ["a ", "a"], "upper": ["a", "A"], "casefold": ["\u00df", "ss"],
+    "title": ["ab", "Ab"], "capitalize": ["ab", "Ab"], "swapcase": ["a", "A"], "split": ["a b", "a.b", "a"], "rsplit": ["a.b", "a"],
+    "partition": ["a.b", "a"], "encode": ["\u00e9"], "format": ["{}", "{0}"], "zfill": ["1", "01"], "isoformat": [], "join": [",", "a,b"],
+}
+_OBSERVED = {"RelationSchema": {"__add__", "__iter__", "find_column", "all_column_names", "column_names", "column", "pop_column", "num_columns"},
+             "FlatColumn": {"all_names"}}
+
+
+def source_alphabet():
+    """Names suggested by the source itself: every string literal in the bodies of the observed functions (a literal
+    compared with a name, or handed to `startswith`, is a name somebody treats specially), each also doubled and with a
+    letter on either side, and witnesses for the `str` methods the bodies call (`isdecimal` -> '0', '1', full-width 1).
+    On the tree as it stands these functions hold no literal and call only `lower`, so the list is empty."""
+    import ast
+    import os
+
+    from ..core import REPO
+
+    lits, meths = [], []
+    try:
+        tree = ast.parse(open(os.path.join(REPO, "orso", "schema.py"), encoding="utf-8").read())
+    except (OSError, SyntaxError):
+        return [], []
+    for cls in tree.body:
+        if not (isinstance(cls, ast.ClassDef) and cls.name in _OBSERVED):
+            continue
+        for fn in cls.body:
+            if not (isinstance(fn, ast.FunctionDef) and fn.name in _OBSERVED[cls.name]):
+                continue
+            doc = {id(b.value) for n in ast.walk(fn) if isinstance(n, (ast.FunctionDef, ast.ClassDef)) for b in n.body[:1]
+                   if isinstance(b, ast.Expr) and isinstance(b.value, ast.Constant)}
+            for n in ast.walk(fn):
+                if isinstance(n, ast.Constant) and isinstance(n.value, str) and id(n) not in doc and len(n.value) <= 12:
+                    lits.append(n.value)
+                elif isinstance(n, ast.Constant) and type(n.value) is int and 0 <= n.value <= 99:
+                    lits.append(str(n.value))
+                elif isinstance(n, ast.Attribute) and n.attr in _METHOD_WITNESSES:
+                    meths.append(n.attr)
+                elif isinstance(n, ast.Call) and isinstance(n.func, ast.Name) and n.func.id in ("int", "float"):
+                    meths.append("isdecimal")
+    lits, meths = list(dict.fromkeys(lits)), list(dict.fromkeys(meths))
+    names = []
+    for l in lits:
+        names += [l, l + l, l + "x", "x" + l]
+    for m in meths:
+        names += _METHOD_WITNESSES[m]
+    names = list(dict.fromkeys(names))[:14]
+    return names, [repr(l) for l in lits] + ["." + m for m in meths]
+
 
 def observation(r, ncols, keys=KEYS):
     ops = []
@@ -608,19 +730,19 @@ def schemas_over(kinds, nmax):
         yield from itertools.product(range(len(kinds)), repeat=n)
 
 
-def gen_lookup_exhaustive(nmax, alias_opts):
+def gen_lookup_exhaustive(nmax, alias_opts, names=NAMES3, keys=KEYS):
     """Every schema of <= nmax columns over names x alias options; every lookup once."""
-    kinds = [["i%d" % 0, n, a] for n in NAMES3 for a in alias_opts]
+    kinds = [["i%d" % 0, n, a] for n in names for a in alias_opts]
     for sel in schemas_over(kinds, nmax):
         cols = [["i%d" % p, kinds[k][1], kinds[k][2]] for p, k in enumerate(sel)]
-        yield {"cols": cols, "schemas": [["s", [], list(range(len(sel)))]], "prog": observation(0, len(sel))}
+        yield {"cols": cols, "schemas": [["s", [], list(range(len(sel)))]], "prog": observation(0, len(sel), keys)}
 
 
-def gen_pop_paths(nmax, alias_opts, depth):
+def gen_pop_paths(nmax, alias_opts, depth, names=NAMES3, keys=("a", "A", "b", "c"), obs_keys=KEYS):
     """Every schema x every sequence of <= depth removals, a full observation after the last one
     (every prefix is itself enumerated) and a cheap one in between."""
-    kinds = [[None, n, a] for n in NAMES3 for a in alias_opts]
-    keys = ["a", "A", "b", "c"]
+    kinds = [[None, n, a] for n in names for a in alias_opts]
+    keys = list(keys)
     for sel in schemas_over(kinds, nmax):
         if not sel:
             continue
@@ -634,7 +756,7 @@ def gen_pop_paths(nmax, alias_opts, depth):
                     prog.append(["names", 0])
                 prog.append(["find", 0, path[-1], True])
                 prog.append(["pop", 0, path[-1]])
-                prog += observation(0, len(sel))
+                prog += observation(0, len(sel), obs_keys)
                 yield {"cols": cols, "schemas": [["s", ["t"], list(range(len(sel)))]], "prog": prog}
 
 
@@ -662,8 +784,28 @@ def history_alphabet():
     ]
 
 
-def gen_histories(depths, starts):
-    alpha = history_alphabet()
+# header-less-CSV style names; after a removal or in a sum taken the other way round a name is no longer its position
+DIGIT_STARTS = [
+    {"cols": [["i0", "0", None], ["i1", "1", None], ["i2", "2", None], ["i3", "3", ["1"]]],
+     "schemas": [["L", [], [0, 1, 2]], ["R", [], [3, 2, 1, 0]]], "keys": ("1", "0")},
+    {"cols": [["i0", "1", ["0"]], ["i1", "0", None], ["i0", "2", []], ["i2", "1", ["2"]]],
+     "schemas": [["L", ["l"], [0, 1]], ["R", [], [2, 3, 1]]], "keys": ("1", "2")},
+]
+
+
+def history_alphabet_digits():
+    return [
+        ["find", 0, "1", False], ["find", 0, "2", True], ["col", 0, "0"], ["col", 0, "1"], ["col", 0, "2"],
+        ["col", 0, 0], ["col", 0, -1], ["col", 0, 1],
+        ["pop", 0, "0"], ["pop", 0, "1"], ["pop", 1, "1"],
+        ["allnames", 0], ["names", 0],
+        ["add", 0, 1], ["add", 1, 0],
+        ["pop", 2, "1"], ["col", 2, "2"], ["col", 2, "1"], ["names", 2], ["add", 2, 0],
+    ]
+
+
+def gen_histories(depths, starts, alpha=None):
+    alpha = alpha or history_alphabet()
     for st in starts:
         for d in depths:
             for hist in itertools.product(alpha, repeat=d):
@@ -682,12 +824,12 @@ def gen_histories(depths, starts):
                     yield {"cols": st["cols"], "schemas": st["schemas"], "prog": [list(op) for op in hist]}
 
 
-def gen_union_pairs(nid, nnames, amax, bmax, chain=False):
+def gen_union_pairs(nid, nnames, amax, bmax, chain=False, names=NAMES3):
     """All pairs (a, b): columns from nid identities x nnames names, two objects per kind (the
     second object only on the right), so shared objects, equal copies, repeated identities and
     same-name/different-identity columns all occur.  With `chain`, all triples and both bracketings."""
-    kinds = [("i%d" % i, NAMES3[n]) for i in range(nid) for n in range(nnames)]
-    table = [[k[0], k[1], None] for k in kinds] + [[k[0], k[1], ["b"]] for k in kinds]
+    kinds = [("i%d" % i, names[n]) for i in range(nid) for n in range(nnames)]
+    table = [[k[0], k[1], None] for k in kinds] + [[k[0], k[1], [names[2]]] for k in kinds]
     left = list(range(len(kinds)))
     right = list(range(len(table)))
 
@@ -698,13 +840,15 @@ def gen_union_pairs(nid, nnames, amax, bmax, chain=False):
     if not chain:
         for a in lists(left, amax):
             for b in lists(right, bmax):
-                prog = [["add", 0, 1], ["add", 1, 0], ["names", 2], ["find", 2, "b", False], ["pop", 2, "a"], ["names", 0]]
+                prog = [["add", 0, 1], ["add", 1, 0], ["names", 2], ["find", 2, names[2], False], ["col", 2, names[0]], ["col", 3, names[0]],
+                        ["col", 3, names[1]], ["pop", 2, names[0]], ["col", 2, names[1]], ["names", 0]]
                 yield {"cols": table, "schemas": [["L", ["x"], list(a)], ["R", [], list(b)]], "prog": prog}
     else:
         for a in lists(left, amax):
             for b in lists(right, bmax):
                 for c in lists(right, bmax):
-                    prog = [["add", 0, 1], ["add", 3, 2], ["add", 1, 2], ["add", 0, 5], ["allnames", 4], ["names", 6]]
+                    prog = [["add", 0, 1], ["add", 3, 2], ["add", 1, 2], ["add", 0, 5], ["allnames", 4], ["names", 6], ["col", 4, names[0]],
+                            ["col", 6, names[1 if nnames > 1 else 0]]]
                     yield {"cols": table, "schemas": [["L", [], list(a)], ["M", ["m"], list(b)], ["R", [], list(c)]], "prog": prog}
 
 
@@ -713,16 +857,16 @@ def gen_frame_interleavings(depth):
     every sequence of <= depth removals addressed to any of the five schemas, a lookup on every schema after each
     removal and the names of all five at the end (the oracle checks after *every* operation that no schema but the
     addressed one moved; the model must agree on every answer)."""
-    for st in HISTORY_STARTS:
+    for st in HISTORY_STARTS + DIGIT_STARTS:
         pre = [["add", 0, 1], ["add", 1, 0], ["add", 2, 3]]
-        alpha = [["pop", r, k] for r in range(5) for k in ("a", "b")]
+        alpha = [["pop", r, k] for r in range(5) for k in st.get("keys", ("a", "b"))]
         for d in range(depth + 1):
             for path in itertools.product(alpha, repeat=d):
                 prog = [list(p) for p in pre]
                 for op in path:
                     prog.append(list(op))
                     for r in range(5):
-                        prog.append(["find", r, op[2], False])
+                        prog.append(["find", r, op[2], False] if "keys" not in st else ["col", r, op[2]])
                 for r in range(5):
                     prog.append(["names", r])
                 prog.append(["add", 4, 0])
@@ -731,7 +875,8 @@ def gen_frame_interleavings(depth):
 
 
 UNI = ["a", "A", "b", "B", "ab", "aB", "Ab", "é", "É", "ß", "ẞ", "SS", "ss", "İ", "i̇", "i", "I", "ı", "Σ", "σ", "ς",
-       "ΑΣ", "ας", "ασ", "ǅ", "ǆ", "Ǆ", "日本", "", " ", "a ", "K", "k", "ﬁ", "FI", "fi", "\U0001f600", "name", "Name", "NAME"]
+       "ΑΣ", "ας", "ασ", "ǅ", "ǆ", "Ǆ", "日本", "", " ", "a ", "K", "k", "ﬁ", "FI", "fi", "\U0001f600", "name", "Name", "NAME",
+       "0", "1", "2", "-1", "True", "None", " 1", "\uff11", "1.0", "\u00b2"]
 
 
 def random_case(ctx, big=False):
@@ -740,6 +885,13 @@ def random_case(ctx, big=False):
     pool = [s for s in UNI if s.isascii()] if ascii_only else UNI
     pool = rng.sample(pool, rng.randint(2, min(len(pool), 8 if not big else 14)))
     ncols = rng.randint(0, 6 if not big else 14)
+    # one case in four: names that look like something else -- positions as text (a header-less CSV names its columns
+    # '0', '1', '2', ...: mostly in natural order here, so that only a removal or a sum taken the other way round makes
+    # a name differ from its position), negative indexes, constants, padded / non-ASCII digits
+    csv = rng.random() < 0.25
+    if csv:
+        ascii_only = False
+        pool = [str(i) for i in range(max(ncols, 2))] + rng.sample(LOOKALIKE, rng.randint(1, 5))
     idpool = ["i%d" % i for i in range(rng.randint(1, max(1, ncols)))]
     cols = []
     for _ in range(ncols):
@@ -753,6 +905,8 @@ def random_case(ctx, big=False):
         else:
             al = [rng.choice(pool) for _ in range(rng.randint(1, 3))]
         col = [ident, rng.choice(pool), al]
+        if csv and rng.random() < 0.7:
+            col[1] = str(len(cols))
         r = rng.random()
         if r < 0.06:
             col.append("const")
@@ -763,7 +917,9 @@ def random_case(ctx, big=False):
     schemas = []
     for q in range(nregs):
         k = rng.randint(0, min(ncols, 5 if not big else 10)) if ncols else 0
-        if rng.random() < 0.6:
+        if csv and rng.random() < 0.5:
+            sel = list(range(k))  # natural order: name == position until something is removed
+        elif rng.random() < 0.6:
             sel = rng.sample(range(ncols), k)
         else:
             sel = [rng.randrange(ncols) for _ in range(k)]
@@ -773,7 +929,7 @@ def random_case(ctx, big=False):
 
     def key():
         r = rng.random()
-        base = rng.choice(pool) if r < 0.8 else rng.choice(UNI if not ascii_only else ["zz", "c", "B"])
+        base = rng.choice(pool) if r < 0.8 else rng.choice(LOOKALIKE if csv else UNI if not ascii_only else ["zz", "c", "B", "0", "1", "-1", "None"])
         r = rng.random()
         if r < 0.15:
             return base.upper()
@@ -792,7 +948,8 @@ def random_case(ctx, big=False):
         elif r < 0.4:
             prog.append(["find", q, key(), rng.random() < 0.5])
         elif r < 0.55:
-            kk = rng.choice([key(), rng.randint(-8, 8), rng.randint(-2, 2), True, False])
+            kk = rng.choice([key(), key(), rng.randint(-8, 8), rng.randint(-2, 2), True, False,
+                             rng.choice([2**31, 2**63 - 1, 2**63, 2**64, -2**63, -2**63 - 1, 10**30])])
             prog.append(["col", q, kk])
         elif r < 0.8:
             prog.append(["pop", q, key()])
@@ -952,21 +1109,46 @@ def run(ctx):
     n = evaluate_all(ctx, gen_lookup_exhaustive(3, ALIASES6))
     scopes.append("every schema of <=3 columns over names {a,A,b} x aliases %r x every lookup "
                   "(find exact/ci and column(name) for keys %r, column(i) for -n-1..n+1, True, False, all names, names, iteration): %d schemas" % (ALIASES6, KEYS, n))
+    n = evaluate_all(ctx, gen_lookup_exhaustive(3, DIGIT_ALIASES4, DIGITS3, DIGIT_KEYS))
+    n2 = evaluate_all(ctx, gen_lookup_exhaustive(2, [None], LOOKALIKE, LOOKALIKE))
+    scopes.append("names that look like positions: every schema of <=3 columns over names %r x aliases %r x every lookup (keys %r, so "
+                  "column('1') where '1' is not at position 1): %d schemas; every schema of <=2 columns over the look-alike names %r, "
+                  "each looked up under every one of them: %d schemas" % (DIGITS3, DIGIT_ALIASES4, DIGIT_KEYS, n, LOOKALIKE, n2))
+    src_names, src_why = source_alphabet()
+    ctx.note("names_suggested_by_the_source", {"from": src_why, "names": src_names})
+    if src_names:
+        n = evaluate_all(ctx, gen_lookup_exhaustive(2, [None], src_names, src_names + ["zz"]))
+        n2 = evaluate_all(ctx, gen_pop_paths(2, [None], 2, src_names[:8], src_names[:6] + ["zz"], src_names + ["zz"]))
+        scopes.append("names suggested by the source (string literals and str methods in the observed functions: %s): every schema of <=2 "
+                      "columns over the names %r, each looked up under every one of them: %d schemas; <=2 removals with full observation: %d "
+                      "histories" % (", ".join(src_why), src_names, n, n2))
     n = evaluate_all(ctx, gen_union_pairs(3, 1, 3, 3))
     n2 = evaluate_all(ctx, gen_union_pairs(2, 2, 2 if q else 3, 2 if q else 3))
     scopes.append("every pair of schemas of <=3 columns over 3 identities (two objects each) and of <=%d columns over 2 identities x 2 names, "
                   "a+b and b+a, then a removal from the sum: %d pairs" % (2 if q else 3, n + n2))
+    n = evaluate_all(ctx, gen_union_pairs(2, 2, 2, 2, names=DIGITS3))
+    scopes.append("every pair of schemas of <=2 columns over 2 identities x names '1','0' (alias '2'), a+b and b+a, column(name) on both sums "
+                  "(a sum taken the other way round lists the names in another order), a removal, column(name) again: %d pairs" % n)
     n = evaluate_all(ctx, gen_union_pairs(2 if q else 3, 1, 2, 2, chain=True))
     scopes.append("every triple of schemas of <=2 columns over %d identities, (a+b)+c and a+(b+c): %d triples" % (2 if q else 3, n))
     n = evaluate_all(ctx, gen_pop_paths(3, ALIASES3, 2 if q else 3))
     scopes.append("every schema of 1..3 columns over names {a,A,b} x aliases %r x every sequence of <=%d removals (keys a,A,b,c), "
                   "lookups in between, full observation at the end: %d histories" % (ALIASES3, 2 if q else 3, n))
+    n = evaluate_all(ctx, gen_pop_paths(3, DIGIT_ALIASES2, 2 if q else 3, DIGITS3, ("0", "1", "2", "3"), DIGIT_KEYS))
+    scopes.append("every schema of 1..3 columns over names %r x aliases %r x every sequence of <=%d removals (keys '0'..'3'), full observation "
+                  "at the end (column(name) for %r after the positions shifted): %d histories" % (DIGITS3, DIGIT_ALIASES2, 2 if q else 3, DIGIT_KEYS, n))
+    n2 = evaluate_all(ctx, gen_pop_paths(2, [None, ["ab"]], 2, ["ab", "-1", "True"], ("ab", "-1", "True", "zz"), ["ab", "AB", "-1", "True", "true", "zz"]))
+    scopes.append("every schema of 1..2 columns over the names 'ab', '-1', 'True' (names, keys and identities of two characters or more are "
+                  "string objects of their own: `is` in place of `==` cannot pass) x every sequence of <=2 removals: %d histories" % n2)
     n = evaluate_all(ctx, gen_histories(range(1, 4), HISTORY_STARTS))
     scopes.append("every history of depth <=3 over %d operations (find, find-ci, column, pop, all names, names, iteration, union, "
                   "operations on the sum) from %d two-schema starting points: %d histories" % (len(history_alphabet()), len(HISTORY_STARTS), n))
+    n = evaluate_all(ctx, gen_histories(range(1, 4), DIGIT_STARTS, history_alphabet_digits()))
+    scopes.append("every history of depth <=3 over %d operations from %d starting points whose columns are named '0','1','2','3' "
+                  "(natural order on the left, reversed on the right): %d histories" % (len(history_alphabet_digits()), len(DIGIT_STARTS), n))
     n = evaluate_all(ctx, gen_frame_interleavings(2 if q else 3))
     scopes.append("frame: from each of the %d starting points a+b, b+a and the sum of the two sums, then every sequence of <=%d removals "
-                  "addressed to any of the five schemas with a lookup on every schema after each: %d programs" % (len(HISTORY_STARTS), 2 if q else 3, n))
+                  "addressed to any of the five schemas with a lookup on every schema after each: %d programs" % (len(HISTORY_STARTS + DIGIT_STARTS), 2 if q else 3, n))
     if not q:
         n = evaluate_all(ctx, gen_lookup_exhaustive(4, ALIASES3))
         scopes.append("every schema of <=4 columns over names {a,A,b} x aliases %r x every lookup: %d schemas" % (ALIASES3, n))
